@@ -6,6 +6,7 @@ import Momtrop.Props.C10Law
 import Momtrop.Props.C11
 import Momtrop.Props.C12
 import Momtrop.Props.C13BM
+import Momtrop.Props.C13Joint
 import Momtrop.Props.C14
 import Mathlib.MeasureTheory.Function.JacobianOneDim
 import Mathlib.Analysis.SpecialFunctions.Pow.Deriv
@@ -16,9 +17,9 @@ import Mathlib.Analysis.SpecialFunctions.Pow.Deriv
 `(2E−1+DL)`-dimensional integral and a momentum-space integral. Neither Feynman/Schwinger
 parametrisation nor the measure of the sector sample is available in Mathlib, so the statement itself
 is **not** proved. What is proved is that the code computes every algebraic ingredient of the standard
-derivation; the three classical theorems that turn them into the integral identity are cited
-(Schwinger parametrisation + Gaussian integral; Borinsky's tropical-sampling theorem for the sector
-density `U_tr^{-D/2} V_tr^{-dod}/I_tr`). Box–Muller (`C13.boxMuller_law`), the Gaussian law of the momenta
+derivation; Schwinger parametrisation (+ Gaussian integral) is cited. Borinsky's sector density
+`x^{ν-1} U_tr^{-D/2} V_tr^{-dod}/I_tr` is proved in `C01Sector.lean` (as an iterated integral, for every sector), except for the
+identification of `U_tr`, `V_tr` with the maximal monomials of `U`, `F/U` (cited, C07). Box–Muller (`C13.boxMuller_law`), the Gaussian law of the momenta
 (`C10.momenta_law`) and the inverse-CDF lemma (`inverse_cdf_law`, abstract: for an exact quantile function) are proved. `reduction` collects the ingredients.
 -/
 namespace Momtrop.C01
@@ -119,6 +120,12 @@ structure Reduction : Prop where
   /-- (iv') Box–Muller theorem: a uniform pair of coordinates gives two independent standard normals -/
   gaussLaw : ∀ (f : ℝ × ℝ → ENNReal), Measurable f →
       ∫⁻ p in Set.Ioo (0:ℝ) 1 ×ˢ Set.Ioo (0:ℝ) 1, f (boxMuller p.1 p.2) = ∫⁻ z, f z * ENNReal.ofReal (C13.gauss2 z)
+  /-- (iv‴) all `m = D·L` Gaussian numbers of a sample (model numbering) are iid `N(0,1)` for uniform independent coordinates -/
+  gaussJoint : ∀ (n m : ℕ) (h : m ≤ 2 * n),
+      MeasureTheory.Measure.map
+        (fun (p : Fin n → ℝ × ℝ) (j : Fin m) => C13.pick (C13.bm (p (C13.numbering n m h j).1)) (C13.numbering n m h j).2)
+        ((MeasureTheory.volume : MeasureTheory.Measure (Fin n → ℝ × ℝ)).restrict (Set.univ.pi fun _ => C13.sq))
+      = MeasureTheory.Measure.pi fun _ : Fin m => ProbabilityTheory.gaussianReal 0 1
   /-- (iv'') inverse-CDF lemma: the quantile of a uniform number has the density of the CDF -/
   icdf : ∀ (F F' G : ℝ → ℝ), (∀ x ∈ Set.Ioi (0:ℝ), HasDerivWithinAt F (F' x) (Set.Ioi 0) x) → Set.InjOn F (Set.Ioi 0) →
       F '' Set.Ioi 0 = Set.Ioo 0 1 → (∀ p ∈ Set.Ioo (0:ℝ) 1, G p ∈ Set.Ioi (0:ℝ) ∧ F (G p) = p) → ∀ f : ℝ → ENNReal,
@@ -152,6 +159,7 @@ theorem reduction : Reduction where
   rescale := fun T uTr vTr loops h1 h2 h3 h4 h5 => C07.rescaling_normalises T uTr vTr loops h1 h2 h3 h4 h5
   gauss := fun a b h0 h1 => C13.box_muller_radius a b h0 h1
   gaussLaw := fun f hf => C13.boxMuller_law_model f hf
+  gaussJoint := fun n m h => C13.components_iid n m h
   icdf := fun F F' G h1 h2 h3 h4 f => inverse_cdf_law F F' G h1 h2 h3 h4 f
   xiLaw := fun c ω hc hω f => xi_power_law c ω hc hω f
   momenta := fun S x p q c Li Qti h1 h2 => C10.propSum_at_sample S x p q c Li Qti h1 h2
